@@ -1,10 +1,17 @@
 /-
   Engine `match` (C05).  Same line protocol as harness/match.cpp:
-    M <pattern-hex> <address-hex> <tags-hex> […]   ->  P <off|NULL> M <0|1> A <0|1|-> B <0|1|->
+    M <pattern-hex> <address-hex> <tags-hex> […]   ->  P <1|NULL> M <0|1> A <0|1|-> B <0|1|-> Pe <1|NULL> Me <0|1>
+        (verdicts only; the calls with path_end != NULL are the same model functions: the code
+         only redirects `path_end` to a local when it is NULL)
+    U <pattern-hex> <address-hex> <tags-hex> […]   ->  U ok
+        (inputs outside the property's quantifier: the implementation side only reports that
+         the calls returned; the model's verdicts are not compared there)
     X <pattern-hex> <alphabet-hex> <maxlen> <tags>,<tags>,… […]
                                                    ->  X <n> <hash> <n>:<hash> …
     W <spec-token>  -> W <wf0> <prefixfree>   (evaluates the decidable predicates of Match/Spec.lean
                        on a structured pattern; used for the known-finding trigger)
+  All buffers are exactly as long as the harness makes them (no spare bytes); an out-of-bounds
+  read of the model prints `oob`, which the harness never prints.
 -/
 import RtoscModel.Match.Path
 import RtoscModel.Match.Copies
@@ -13,13 +20,11 @@ import Driver.Common
 namespace Driver.MatchEngine
 open Rtosc Rtosc.Match
 
-def slack : Nat := 32
-
 def zeros (n : Nat) : Bytes := List.replicate n 0
 
 /-- the buffer harness/match.cpp hands to rtosc_match -/
 def buildMsg (addr tags : Bytes) : Bytes :=
-  mkMsg addr tags (zeros ((tags.map zeroArgSize).sum + slack))
+  mkMsg addr tags (zeros ((tags.map zeroArgSize).sum))
 
 /-- `strchr(pattern, ':')` on a C string -/
 def firstColon : Bytes → Option Bytes
@@ -31,19 +36,22 @@ def showB : Option Bool → String
   | some true => "1"
   | some false => "0"
 
+def showP : Res (Bytes × Bytes) → String
+  | .oob => "oob"
+  | .fail => "NULL"
+  | .ok _ => "1"
+
 def opM (pat addr tags : Bytes) : String :=
   let p0 := pat ++ [0]
   let a0 := addr ++ [0]
   let msg := buildMsg addr tags
-  let t0 := tags ++ zeros (slack + 1)
-  let pS := match path p0 a0 with
-    | .oob => "oob"
-    | .fail => "NULL"
-    | .ok (ap, _) => toString (offsetIn p0 ap)
+  let t0 := tags ++ [0]
+  let pS := showP (path p0 a0)
   let mS := showB ((full p0 msg).map (·.1))
-  match firstColon p0 with
-  | none => s!"P {pS} M {mS} A - B -"
-  | some spec => s!"P {pS} M {mS} A {showB (argMatcher spec t0)} B {showB (portMatcherArgs spec msg)}"
+  let ab := match firstColon p0 with
+    | none => "A - B -"
+    | some spec => s!"A {showB (argMatcher spec t0)} B {showB (portMatcherArgs spec msg)}"
+  s!"P {pS} M {mS} {ab} Pe {pS} Me {mS}"
 
 def mix (h : UInt64) (s : Bytes) : UInt64 :=
   (s.foldl (fun h c => h * 1099511628211 + c.toUInt64 + 1) h) * 1099511628211 + 255
@@ -104,6 +112,7 @@ def step (line : String) : String :=
     match ofHex p, ofHex a, ofHex t with
     | some pat, some addr, some tags => opM pat addr tags
     | _, _, _ => "bad-op"
+  | "U" :: _ :: _ :: _ :: _ => "U ok"
   | "X" :: p :: al :: ml :: tg :: _ =>
     match ofHex p, ofHex al, ml.toNat?, (tg.splitOn ",").mapM ofHex with
     | some pat, some alph, some maxlen, some tagv =>
